@@ -112,4 +112,45 @@ theorem atoiChars_range (cs : List Char) (i : Int) (h : atoiChars cs = some i) :
         · cases h; omega
         · cases h
 
+theorem split_last {α} (c : α) : ∀ (a b x y : List α), c ∉ x → c ∉ y → a ++ c :: x = b ++ c :: y → a = b ∧ x = y
+  | [], [], x, y, _, _, h => by simpa using h
+  | [], b0 :: bs, x, y, hx, _, h => by
+    simp only [List.nil_append, List.cons_append, List.cons.injEq] at h
+    exact absurd (by rw [h.2]; simp) hx
+  | a0 :: as, [], x, y, _, hy, h => by
+    simp only [List.nil_append, List.cons_append, List.cons.injEq] at h
+    exact absurd (by rw [← h.2]; simp) hy
+  | a0 :: as, b0 :: bs, x, y, hx, hy, h => by
+    simp only [List.cons_append, List.cons.injEq] at h
+    obtain ⟨h1, h2⟩ := split_last c as bs x y hx hy h.2
+    exact ⟨by rw [h.1, h1], h2⟩
+
+theorem natDigits_all_digits (n : Nat) : ∀ c ∈ natDigits n, isDigit c = true := by
+  induction n using Nat.strongRecOn with
+  | _ n ih =>
+    unfold natDigits
+    split
+    · rename_i h
+      intro c hc
+      simp only [List.mem_singleton] at hc
+      rw [hc]; exact (digit_char n h).1
+    · rename_i h
+      intro c hc
+      rcases List.mem_append.mp hc with h1 | h1
+      · exact ih (n / 10) (by omega) c h1
+      · simp only [List.mem_singleton] at h1
+        rw [h1]; exact (digit_char (n % 10) (Nat.mod_lt _ (by omega))).1
+
+theorem slash_not_in_digits (n : Nat) : '/' ∉ natDigits n := by
+  intro h
+  have := natDigits_all_digits n _ h
+  revert this; decide
+
+/-- for one base URL the rendering of (issuer, page) is injective — whatever the issuer string is -/
+theorem renderSl_injective (base i1 i2 : String) (p1 p2 : Nat) (h : renderSl base i1 p1 = renderSl base i2 p2) : i1 = i2 ∧ p1 = p2 := by
+  have h' := congrArg String.toList h
+  simp only [renderSl, String.toList_ofList, renderSlChars, List.append_assoc] at h'
+  have h2 := List.append_cancel_left (List.append_cancel_left h')
+  obtain ⟨ha, hx⟩ := split_last '/' _ _ _ _ (slash_not_in_digits p1) (slash_not_in_digits p2) h2
+  exact ⟨String.toList_injective ha, natDigits_injective _ _ hx⟩
 end Nuts.C11.Wire
